@@ -1,7 +1,175 @@
-import AmqModel.Model.Conn
+import AmqModel.Model.ConnRun
+import AmqModel.Lemmas.Conn
+/-!
+# C20 — simultaneous closes and requests never panic; they resolve as some serial order
+
+`Conn` is the I/O thread of an established connection together with every queue that ties it to
+client threads; `run (init cm b) ops` ranges over every reachable state (any number of channels,
+consumers, listeners, any interleaving of client queue operations, inbound frames, events,
+transport behaviour).  A *batch* of poll events is a list of `IoOp.event`s handled one after
+another — which is literally what `for event in events.iter() { handle_event(..)? }` does — so a
+statement about one event from an arbitrary reachable state covers batches of any length and
+order (reachable states are closed under `step`).
+
+Property theorems only; the reachable-state invariant `Conn.Inv` and every helper lemma live in
+`AmqModel/Lemmas/Conn.lean`.
+-/
 namespace AmqModel.Props.C20
 open AmqModel.Conn
 
-theorem placeholder : (Conn.init 1 1).dead = false := rfl
+/-- No event, in any reachable state, panics the I/O thread; nor does the `is_done` assert fire. -/
+theorem batch_no_panic (cm b : Nat) (ops : List Op) (hl : ∀ o ∈ ops, ApiLegal o) (t : Token) :
+    (ioStep (run (init cm b) ops) (.event t)).2.err ≠ some .panic ∧
+    (ioStep (run (init cm b) ops) .done).2.done ≠ some none :=
+  ⟨ioStep_event_no_panic (inv_reachable cm b ops hl) t,
+   ioStep_done_no_assert (inv_reachable cm b ops hl)⟩
+
+/-- Handling a batch is handling its events one after another (definitionally a fold), and the
+    state after any prefix is again a reachable state. -/
+theorem batch_is_serial (c : Conn) (e : Token) (es : List Token) :
+    run c ((e :: es).map (fun t => Op.io (.event t))) =
+      run (run c [Op.io (.event e)]) (es.map (fun t => Op.io (.event t))) := rfl
+
+/-- An event whose source was dropped earlier in the batch (the channel-0 slot once the
+    connection is no longer steady) is the identity: exactly the serial order in which that
+    request arrives after the close, its sender observing the disconnected queue. -/
+theorem stale_ch0_event_is_noop (c : Conn) (hl : c.legacy = false) (h : c.st ≠ .steady) :
+    handleEvent c .alloc = (c, [], none) ∧ handleEvent c .setBlocked = (c, [], none) ∧
+    handleEvent c (.chan 0) = (c, [], none) :=
+  ⟨handleEvent_alloc_nonsteady hl h, handleEvent_setBlocked_nonsteady hl h,
+   handleEvent_chan0_nonsteady hl h⟩
+
+/-- … and so is an event for a non-zero channel whose slot is gone. -/
+theorem stale_channel_event_is_noop (c : Conn) (n : Nat) (hn : n ≠ 0) (h : lookupN n c.slots = none) :
+    handleEvent c (.chan n) = (c, [], none) :=
+  handleEvent_chan_noslot hn h
+
+/-- Once the slot is gone the request's sender observes the disconnected queue. -/
+theorem request_after_close_fails (c : Conn) (label : Label) (lid : Nat) (m : Msg)
+    (hh : lookupS label c.handles = some lid) (hd : (getLink c lid).ioAlive = false) :
+    (clientSend c label m).2 = .disconnected ∧ (clientSend c label m).1 = c :=
+  clientSend_disconnected hh hd m
+
+/-- Processing the server's Connection.Close in a steady state: CloseOk is queued (unless writes
+    were already sealed), writes are sealed, the state records the server's code and text. -/
+theorem server_close_recorded (c : Conn) (code : Nat) (text dc df : Bytes) (hs : c.st = .steady) :
+    let r := process c (.method 0 10 50 [.nat code, .bytes text]) dc df
+    r.1.st = .serverClosing code text ∧ r.1.sealed = true ∧
+    r.1.out = (if c.sealed then c.out else c.out ++ connectionCloseOk) ∧ r.1.slots = [] :=
+  process_serverClose hs code text dc df
+
+/-
+`close_still_reported` is FALSE as stated in the task:
+
+    theorem close_still_reported (c : Conn) (code : Nat) (text : Bytes) (o : IoOp)
+        (hl : c.legacy = false) (hd : c.dead = false)
+        (hst : c.st = .serverClosing code text) (hs : c.sealed = true) (hsl : c.slots = []) :
+        let r := ioStep c o
+        (r.2.err = none → (o ≠ .kill → r.1.dead = false) ∧ (r.1.st = .serverClosing code text ∧ r.1.sealed = true ∧ r.1.slots = []) ∧
+            ∃ k, r.1.out = c.out.drop k) ∧
+        (∀ e, r.2.err = some e →
+            e = .ioErrorWritingSocket ∨ e = .ioErrorReadingSocket ∨ e = .unexpectedSocketClose ∨ e = .malformedFrame)
+
+Counterexample (second conjunct): `o = .frame bytes` for bytes the harness never declared
+(`declOf c bytes = none`) ends the loop with `modelBadInput` in *every* state — this is the model's
+own "malformed case file" error (`processBytes`), not a behaviour of the client.  The state below
+is reachable (`init`, then the server's Connection.Close), the op is `ApiLegal`.
+-/
+
+/-- The counterexample state: `init`, then the server's Connection.Close is processed. -/
+def cex : Conn := (process (Conn.init 4 4) (.method 0 10 50 [.nat 320, .bytes []]) [] []).1
+
+example : cex.legacy = false ∧ cex.dead = false ∧ cex.st = .serverClosing 320 [] ∧
+    cex.sealed = true ∧ cex.slots = [] := by decide
+example : (ioStep cex (.frame [])).2.err = some .modelBadInput := by decide
+example : ¬ (∀ e, (ioStep cex (.frame [])).2.err = some e →
+    e = .ioErrorWritingSocket ∨ e = .ioErrorReadingSocket ∨ e = .unexpectedSocketClose ∨
+      e = .malformedFrame) := by
+  intro h
+  have := h .modelBadInput (by decide)
+  revert this; decide
+
+/-- After the server's close, nothing takes the close away: every later I/O step (any event,
+    frame, write, …) either leaves the state `ServerClosing code text` with writes sealed and the
+    output buffer only shrinking, or ends the loop with a *transport* error; it is never replaced
+    by a protocol error and never panics.  Hence `Connection::close` still reports the server's
+    close.
+
+    Strongest true variant of the stated `close_still_reported`: the only further error is the
+    model's own `modelBadInput`, and only for an `IoOp.frame` whose bytes were never declared. -/
+theorem close_still_reported_partial (c : Conn) (code : Nat) (text : Bytes) (o : IoOp)
+    (hl : c.legacy = false) (hd : c.dead = false)
+    (hst : c.st = .serverClosing code text) (hs : c.sealed = true) (hsl : c.slots = []) :
+    let r := ioStep c o
+    (r.2.err = none → (o ≠ .kill → r.1.dead = false) ∧ (r.1.st = .serverClosing code text ∧ r.1.sealed = true ∧ r.1.slots = []) ∧
+        ∃ k, r.1.out = c.out.drop k) ∧
+    (∀ e, r.2.err = some e →
+        e = .ioErrorWritingSocket ∨ e = .ioErrorReadingSocket ∨ e = .unexpectedSocketClose ∨ e = .malformedFrame ∨
+        (e = .modelBadInput ∧ ∃ bytes, o = .frame bytes ∧ declOf c bytes = none)) := by
+  intro r
+  have hns : c.st ≠ .steady := by rw [hst]; intro e; cases e
+  obtain ⟨h1, h2⟩ := ioStep_closed hl hd hns hs hsl o
+  refine ⟨fun he => ?_, fun e he => ?_⟩
+  · obtain ⟨a, ⟨b1, b2, b3⟩, k⟩ := h1 he
+    exact ⟨a, ⟨b1.trans hst, b2, b3⟩, k⟩
+  · rcases h2 e he with ht | hm
+    · rcases (Err.isTransport_iff e).mp ht with h | h | h | h
+      · exact Or.inl h
+      · exact Or.inr (Or.inl h)
+      · exact Or.inr (Or.inr (Or.inl h))
+      · exact Or.inr (Or.inr (Or.inr (Or.inl h)))
+    · exact Or.inr (Or.inr (Or.inr (Or.inr hm)))
+
+/-- The statement as given holds for every step other than feeding undeclared bytes, i.e. for
+    everything the real I/O thread can meet (a frame reaches `process` only after `parse_frame`
+    produced it, which is what a declaration stands for). -/
+theorem close_still_reported_declared (c : Conn) (code : Nat) (text : Bytes) (o : IoOp)
+    (hl : c.legacy = false) (hd : c.dead = false)
+    (hst : c.st = .serverClosing code text) (hs : c.sealed = true) (hsl : c.slots = [])
+    (hdecl : ∀ bytes, o = .frame bytes → declOf c bytes ≠ none) :
+    let r := ioStep c o
+    (r.2.err = none → (o ≠ .kill → r.1.dead = false) ∧ (r.1.st = .serverClosing code text ∧ r.1.sealed = true ∧ r.1.slots = []) ∧
+        ∃ k, r.1.out = c.out.drop k) ∧
+    (∀ e, r.2.err = some e →
+        e = .ioErrorWritingSocket ∨ e = .ioErrorReadingSocket ∨ e = .unexpectedSocketClose ∨ e = .malformedFrame) := by
+  intro r
+  obtain ⟨h1, h2⟩ := close_still_reported_partial c code text o hl hd hst hs hsl
+  refine ⟨h1, fun e he => ?_⟩
+  rcases h2 e he with h | h | h | h | ⟨_, bytes, ho, hn⟩
+  · exact Or.inl h
+  · exact Or.inr (Or.inl h)
+  · exact Or.inr (Or.inr (Or.inl h))
+  · exact Or.inr (Or.inr (Or.inr h))
+  · exact absurd hn (hdecl bytes ho)
+
+/-- Same for a client-side protocol exception.  (No reachability hypothesis is needed: a FIFO is
+    only drained for a channel whose slot was just looked up, and channel 0 is not drained at all
+    outside `Steady`, so the `unreachable!`s of `process_channel_message` cannot be met.) -/
+theorem exception_still_reported (c : Conn) (o : IoOp)
+    (hl : c.legacy = false) (hd : c.dead = false) (hst : c.st = .clientException) (hs : c.sealed = true) :
+    let r := ioStep c o
+    (r.2.err = none → r.1.st = .clientException ∧ r.1.sealed = true ∧ ∃ k, r.1.out = c.out.drop k) ∧
+    (∀ e, r.2.err = some e → e ≠ .panic ∧ e ≠ .frameUnexpected) := by
+  intro r
+  have hns : c.st ≠ .steady := by rw [hst]; intro e; cases e
+  obtain ⟨h1, h2⟩ := ioStep_sealed hl hd hns hs o
+  refine ⟨fun he => ?_, fun e he => ?_⟩
+  · obtain ⟨a, b, k⟩ := h1 he
+    exact ⟨a.trans hst, b, k⟩
+  · rcases h2 e he with ht | h | h
+    · rcases (Err.isTransport_iff e).mp ht with h | h | h | h <;> subst h <;>
+        exact ⟨by simp, by simp⟩
+    · subst h; exact ⟨by simp, by simp⟩
+    · subst h; exact ⟨by simp, by simp⟩
+
+/-- The code before the repair of D5 panics on [server Connection.Close, then a stale alloc event]. -/
+example :
+    let c0 := Conn.init 4 4 true
+    let c1 := (process c0 (.method 0 10 50 [.nat 320, .bytes []]) [] []).1
+    (handleEvent c1 .alloc).2.2 = some .panic := by decide
+example :
+    let c0 := Conn.init 4 4 false
+    let c1 := (process c0 (.method 0 10 50 [.nat 320, .bytes []]) [] []).1
+    (handleEvent c1 .alloc).2.2 = none := by decide
 
 end AmqModel.Props.C20
